@@ -97,8 +97,10 @@ def _header_name_to_cgi(name):
 def _build_http_response(smtp_reply):
     code = smtp_reply.code
     headers = []
-    # A header value cannot span lines, a multi-line reply is folded.
-    info = {'message': ' '.join((smtp_reply.message or '').splitlines())}
+    # A header value cannot span lines, a multi-line reply is folded; nor can
+    # it carry characters outside latin-1.
+    message = ' '.join((smtp_reply.message or '').splitlines())
+    info = {'message': message.encode('latin-1', 'replace').decode('latin-1')}
     if smtp_reply.command:
         command = smtp_reply.command
         if isinstance(command, bytes):
